@@ -57,9 +57,10 @@ def PAD_1 : Nat := 0
 def PAD_N : Nat := 1
 def JUMBO_PAYLOAD : Nat := 194
 
-/-- `IPv6::is_extension_header` -/
+/-- `IPv6::is_extension_header` (the authentication header, 51, is parsed by `IPSecAH` like under IPv4: its length
+    field counts 4-octet units) -/
 def isExtensionHeader (h : Nat) : Bool :=
-  h == HOP_BY_HOP || h == DESTINATION_OPTIONS || h == ROUTING || h == FRAGMENT || h == AUTHENTICATION
+  h == HOP_BY_HOP || h == DESTINATION_OPTIONS || h == ROUTING || h == FRAGMENT
     || h == DESTINATION_OPTIONS || h == MOBILITY || h == NO_NEXT_HEADER
 
 /-- `IPv6::get_padding_size` -/
@@ -291,13 +292,13 @@ def writeHeaders (o : OutCursor) : List (ExtHdr × Nat) → Out OutCursor
     writeHeaders o rest
 
 /-- the value `set_last_next_header` receives: the inner PDU's protocol number when `pdu_flag_to_ip_type` knows it,
-    else the stored `next_header_`; 0 without inner PDU -/
+    else the stored `next_header_`; NO_NEXT_HEADER (59) without inner PDU -/
 def lastNext (cx : Ctx) (p : Ipv6) : Nat :=
   match cx.innerCls with
   | some cls =>
     let f := Tags.ipProtoOfPduType (Tags.pduTypeOf cls)
     if f != 255 then f else p.finalNext
-  | none => 0
+  | none => NO_NEXT_HEADER
 
 /-- the next-header octets on the wire: (the fixed header's, one per extension header).  Header `i` carries the type of
     header `i + 1`, the last one (or the fixed header when there is none) carries `last`. -/
